@@ -134,6 +134,53 @@ def expand_entries(ctx, entries):
     return out
 
 
+def _shape_from_counts(ctx: Context, fi, ret) -> tuple[bool, str]:
+    """A mesh's grid_shape written out kind by kind: {kind: (topology.<kind>_count,)}, the edge entry added under the guard
+    that also adds the edge kind, and each count being the size of the dimension that grid_dimensions binds to that kind."""
+    flow = ctx.flow(fi)
+    entries: dict[str, tuple[ast.AST, ast.AST]] = {}
+    v = flow.resolve(ret.value)
+    if isinstance(ret.value, ast.Name):
+        for d in flow.defs_of(ret.value):
+            if isinstance(d.value, ast.Dict):
+                v = d.value
+        for n in walk_no_nested(fi.node):
+            if isinstance(n, ast.Assign) and isinstance(n.targets[0], ast.Subscript) and isinstance(n.targets[0].value, ast.Name) \
+                    and n.targets[0].value.id == ret.value.id:
+                entries[norm_text(n.targets[0].slice)] = (n.value, n)
+    if not isinstance(v, ast.Dict):
+        return False, norm_text(v)
+    for k, val in zip(v.keys, v.values):
+        entries[norm_text(k)] = (val, v)
+    topo = ctx.p.cls('emsarray.conventions.ugrid.Mesh2DTopology')
+    gd = ctx.p.functions.get(f"{fi.cls.qualname}.grid_dimensions")
+    gk = ctx.p.functions.get(f"{fi.cls.qualname}.grid_kinds")
+    if gd is None or gk is None or topo is None:
+        return False, 'no grid_dimensions / grid_kinds beside this grid_shape'
+    from .common import guards
+    seen = []
+    for key, (val, where) in sorted(entries.items()):
+        kind = key.rpartition('.')[2]
+        elts = val.elts if isinstance(val, (ast.Tuple, ast.List)) else None
+        if not elts or len(elts) != 1 or norm_text(elts[0]) != f"self.topology.{kind}_count":
+            return False, f"{key}: {norm_text(val)}"
+        count = topo.methods.get(f"{kind}_count")
+        first = sorted(count.returns(), key=lambda r: r.lineno)[0] if count is not None and count.returns() else None
+        if first is None or norm_text(ctx.flow(count).resolve(first.value)) != f"self.dataset.sizes[self.{kind}_dimension]":
+            return False, f"{kind}_count is not the size of {kind}_dimension"
+        # the dimension bound to this kind is that same topology dimension
+        bound = [n for n in ast.walk(gd.node) if isinstance(n, (ast.List, ast.Tuple)) and len(n.elts) == 1
+                 and norm_text(n.elts[0]) == f"self.topology.{kind}_dimension"]
+        if not bound:
+            return False, f"grid_dimensions does not bind {key} to topology.{kind}_dimension"
+        g_here = sorted(guards(fi, where)) if where is not v else []
+        g_dims = sorted(g for g in guards(gd, bound[0]))
+        if g_here != g_dims:
+            return False, f"{key} is listed under {g_here}, its dimension under {g_dims}"
+        seen.append(kind)
+    return len(seen) >= 2, f"{{kind: (topology.<kind>_count,)}} for {seen}, each count the size of that kind's dimension, same guards as grid_dimensions"
+
+
 def run(ctx: Context) -> None:
     p = ctx.p
     base = p.cls(DIMCONV)
@@ -305,7 +352,10 @@ def run(ctx: Context) -> None:
                         core_ok = (isinstance(core, ast.Subscript) and dotted(core.value) == 'self.grid_dimensions'
                                    and isinstance(core.slice, ast.Name) and core.slice.id == kvar)
                         ok = elt_ok and core_ok
-                ctx.check('R01.2', ok, "grid_shape[kind] = tuple(dataset.sizes[d] for d in grid_dimensions[kind]) for kind in grid_kinds, in order", fi, r,
+                if not ok and fi.cls is not None:
+                    ok, detail = _shape_from_counts(ctx, fi, r)
+                ctx.check('R01.2', ok, "grid_shape[kind] = tuple(dataset.sizes[d] for d in grid_dimensions[kind]) for kind in grid_kinds, in order "
+                          "(a mesh may instead list, kind by kind, the topology's count of that kind's own dimension)", fi, r,
                           construct=f"grid_shape = {detail}")
         for fi in p.implementations(base, 'grid_size'):
             flow = ctx.flow(fi)
@@ -462,6 +512,8 @@ VARIANTS = [
     V('C01', 'ugrid-unpack-const-kind', _U, "    def unpack_index(self, index: UGridIndex) -> tuple[UGridKind, Sequence[int]]:\n        return index[0], index[1:]", "    def unpack_index(self, index: UGridIndex) -> tuple[UGridKind, Sequence[int]]:\n        return UGridKind.face, index[1:]", 'R01.1'),
     V('C01', 'cfgrid-pack-reversed', _G, "        return cast(CFGridIndex, indexes)", "        return cast(CFGridIndex, tuple(reversed(indexes)))", 'R01.1'),
     V('C01', 'negative-index-wraps-in-select', _B, "        if (index_array < 0).any():\n            raise ValueError(\"Indexes must not be negative\")\n", "", 'R01.10'),
+    V('C01', 'mesh-shape-kinds-crossed', _U, "            UGridKind.node: (self.topology.node_count,),\n            UGridKind.face: (self.topology.face_count,),", "            UGridKind.node: (self.topology.face_count,),\n            UGridKind.face: (self.topology.node_count,),", 'R01.2'),
+    V('C01', 'mesh-shape-edge-unguarded', _U, "        if self.topology.has_edge_dimension:\n            shape[UGridKind.edge] = (self.topology.edge_count,)\n        return shape", "        shape[UGridKind.edge] = (self.topology.edge_count,)\n        return shape", 'R01.2'),
     V('C01', 'mode-wrap', _B, "        return int(numpy.ravel_multi_index(indexes, shape))", "        return int(numpy.ravel_multi_index(indexes, shape, mode='wrap'))", 'R01.3'),
     V('C01', 'mode-clip', _B, "        return int(numpy.ravel_multi_index(indexes, shape))", "        return int(numpy.ravel_multi_index(indexes, shape, mode='clip'))", 'R01.3'),
     V('C01', 'order-F', _B, "        indexes = tuple(map(int, numpy.unravel_index(linear_index, shape)))", "        indexes = tuple(map(int, numpy.unravel_index(linear_index, shape, order='F')))", 'R01.3'),
